@@ -1,5 +1,6 @@
 """C26 — Process-wide named singletons are unique under concurrent first use (structural clauses)."""
 from rules.common import start
+from rules import wave3
 from rules import wave2
 from rules import misc
 
@@ -17,4 +18,7 @@ def run(tier):
     # clauses added for the wave-2 seeds (rules/wave2.py; DESIGN 12a)
     for _cfg, f in fx.items():
         wave2.lookup_consults_map_rule(run, f, "C26-LOOKUP-CONSULTS-MAP")
+    # clauses added for the wave-2 seeds (rules/wave2.py; DESIGN 12a)
+    for _cfg, f in fx.items():
+        wave3.no_rebind_rule(run, f, "C26-NO-REBIND")
     return run.finish()
